@@ -81,3 +81,79 @@ Proof.
   - cbn [tstep]. unfold t_op. cbn [t_base t_te t_rc seth heap]. fold h' i. rewrite Gn.
     unfold t_info. cbn [t_base t_te seth heap snd]. rewrite Lz, Gi. reflexivity.
 Qed.
+
+(* ---- directory, symbolic-link and hard-link headers -------------------------------------------- *)
+Definition inst_out (r : out) : out := match r with OOk => ONum 1%Z | r => r end.
+
+(* a hard-link header is Link on the tree — the entry and opener tables are untouched, so the new
+   name is the SAME inode with the same package entry — and the reference's Link inside its envelope *)
+Theorem writeheader_link_is_link : forall ts old new,
+  let s := t_base ts in
+  tstep ts (TWriteHeaderLink old new) =
+    (mkT (fst (model_step TarFS s (Link old new))) (t_te ts) (t_rc ts), inst_out (snd (model_step TarFS s (Link old new)))) /\
+  (E TarFS s (Link old new) = true ->
+   tstep ts (TWriteHeaderLink old new) =
+     (mkT (fst (spec_step s (Link old new))) (t_te ts) (t_rc ts), inst_out (snd (spec_step s (Link old new))))).
+Proof.
+  intros ts old new s.
+  assert (A : tstep ts (TWriteHeaderLink old new) =
+    (mkT (fst (model_step TarFS s (Link old new))) (t_te ts) (t_rc ts), inst_out (snd (model_step TarFS s (Link old new))))).
+  { cbn [tstep]. unfold t_writeheader_link. fold s. destruct (model_step TarFS s (Link old new)) as [s1 r]. reflexivity. }
+  split; [exact A|]. intro HE. rewrite A, (refines TarFS s _ HE). reflexivity.
+Qed.
+
+(* a directory header is MkdirAll followed by Chtimes; inside their envelopes: the reference's
+   mkdir -p followed by the reference's Chtimes *)
+Theorem writeheader_dir_is_mkdirall_chtimes : forall ts p perm t,
+  let s := t_base ts in
+  E TarFS s (MkdirAll p perm) = true ->
+  let s1 := fst (spec_step s (MkdirAll p perm)) in
+  (snd (spec_step s (MkdirAll p perm)) = OOk -> E TarFS s1 (Chtimes p t) = true ->
+   tstep ts (TWriteHeaderDir p perm t) =
+     (mkT (fst (spec_step s1 (Chtimes p t))) (t_te ts) (t_rc ts), inst_out (snd (spec_step s1 (Chtimes p t))))) /\
+  (snd (spec_step s (MkdirAll p perm)) <> OOk ->
+   tstep ts (TWriteHeaderDir p perm t) = (mkT s1 (t_te ts) (t_rc ts), snd (spec_step s (MkdirAll p perm)))).
+Proof.
+  intros ts p perm t s HE s1. cbn [tstep]. unfold t_writeheader_dir. fold s. rewrite (refines TarFS s _ HE).
+  unfold s1. destruct (spec_step s (MkdirAll p perm)) as [s1' r1]. cbn [fst snd]. split.
+  - intros Hr HE2. subst r1. rewrite (refines TarFS s1' _ HE2). destruct (spec_step s1' (Chtimes p t)) as [s2 r2]. reflexivity.
+  - intro Hr. destruct r1; try reflexivity. congruence.
+Qed.
+
+(* a link header under a fresh name in the root directory, in ANY state: the link is made with the
+   header's target, Readlink reads it back, and the same header again is "not installed" and
+   changes nothing (apk re-delivers identical links) *)
+Theorem symlink_after_writeheader : forall ts nm tgt cid,
+  let s := t_base ts in
+  clean_name nm = true -> is_dir (heap s) 0 = true -> lookup nm (n_children (get (heap s) 0)) = None ->
+  let ts' := fst (tstep ts (TWriteHeaderSym [nm] tgt cid)) in
+  snd (tstep ts (TWriteHeaderSym [nm] tgt cid)) = ONum 1%Z /\
+  snd (tstep ts' (TOp (Readlink [nm]))) = OPath tgt /\
+  tstep ts' (TWriteHeaderSym [nm] tgt cid) = (ts', ONum 0%Z).
+Proof.
+  intros ts nm tgt cid s Hn Hr Hl ts'.
+  destruct (clean_name_eqb nm Hn) as [E1 [E2 E3]].
+  assert (Hb : go_base [nm] = nm) by (apply go_base_single, Hn).
+  assert (Hd : go_dir [nm] = ["."]) by reflexivity.
+  assert (Hg : forall h, get_node TarFS h ["."] = inl 0) by (intro h; unfold get_node; destruct (getnode_depth TarFS); reflexivity).
+  assert (L0 : 0 < List.length (heap s)) by (apply is_dir_in_range, Hr).
+  set (n := mkNode KSym 511%N 0%Z 0%Z [] None tgt 0%N [] []).
+  assert (Rl0 : snd (model_step TarFS s (Readlink [nm])) = OErr ENotExist).
+  { cbn [model_step]. unfold with_leaf, m_leaf. rewrite Hd, Hg, Hb, Hl. reflexivity. }
+  assert (Ets : tstep ts (TWriteHeaderSym [nm] tgt cid) =
+                (mkT (seth s (fst (create (heap s) 0 nm n))) (nset (List.length (heap s)) (cid, false) (t_te ts)) (t_rc ts), ONum 1%Z)).
+  { cbn [tstep]. unfold t_writeheader_sym. fold s. rewrite Rl0. unfold t_wh. fold s. rewrite Hd, Hg, Hb, Hr, Hl. reflexivity. }
+  unfold ts'. rewrite Ets. cbn [fst snd]. split; [reflexivity|].
+  set (h' := fst (create (heap s) 0 nm n)). set (i := List.length (heap s)).
+  assert (Gi : get h' i = n) by (apply get_create_new, L0).
+  assert (Lk : lookup nm (n_children (get h' 0)) = Some i).
+  { unfold h', create, add_child. cbn [fst]. rewrite get_upd_same by (rewrite app_length; simpl; lia).
+    cbn [set_children n_children]. apply lookup_set_key. }
+  assert (Si : is_sym h' i = true) by (unfold is_sym; rewrite Gi; reflexivity).
+  assert (Rl1 : model_step TarFS (seth s h') (Readlink [nm]) = (seth s h', OPath tgt)).
+  { cbn [model_step]. unfold with_leaf, m_leaf. cbn [seth heap]. rewrite Hd, Hg, Hb, Lk, Si, Gi. reflexivity. }
+  split.
+  - cbn [tstep]. unfold t_op, lift. cbn [t_base t_te t_rc]. fold h'. rewrite Rl1. reflexivity.
+  - cbn [tstep]. unfold t_writeheader_sym. cbn [t_base]. fold h'. rewrite Rl1. cbn [snd].
+    unfold path_eqb. rewrite (list_eqb_refl String.eqb String.eqb_refl). reflexivity.
+Qed.
